@@ -3,6 +3,7 @@
    root = list of letters; a Sequence-valued outcome is <<"v", chars, loc, hasLoc>>. *)
 EXTENDS SeqAlg, Json, IOUtils, TLC
 Trace == ndJsonDeserialize(IOEnv.TRACE_FILE)
+BagOfSeq(sq) == [x \in {sq[i] : i \in DOMAIN sq} |-> Cardinality({i \in DOMAIN sq : sq[i] = x})]
 Ok(b, name) == IF b THEN "ok" ELSE name
 FirstBad(seq) == IF \E i \in DOMAIN seq : seq[i] # "ok"
                  THEN seq[CHOOSE i \in DOMAIN seq : seq[i] # "ok" /\ \A j \in 1..(i - 1) : seq[j] = "ok"] ELSE "ok"
@@ -35,7 +36,11 @@ VSop(ev) ==
      LET a == ar[1] b == ar[2] step == ar[3] open == ar[4] plain == (step = 1) IN
      IF IsVal(o) THEN
         IF ~ConsistentSeq(o[2], o[3], o[4], root)
-        THEN (IF ph /\ SelfOverlap(pl) /\ step = 1 THEN "slice:selfoverlap-order" ELSE "slice:location-consistent")
+        \* the self-overlap finding is about ORDER: the recorded location must still have exactly the bases of the slice,
+        \* with multiplicity (a slice that picks up an intron base or loses a repeated one is not that finding)
+        THEN (IF ph /\ SelfOverlap(pl) /\ step = 1 /\ ~IsEmptyLoc(o[3])
+                 /\ BagOfSeq(Bases(o[3])) = BagOfSeq(PySlice(Bases(pl), a, b))
+              THEN "slice:selfoverlap-order" ELSE "slice:location-consistent")
         ELSE IF o[4] # ph THEN "slice:keeps-location"
         ELSE IF plain /\ o[2] # PySlice(pc, a, b) THEN "slice:chars" ELSE "ok"
      ELSE IF ~Rejected(o) THEN "slice:internal-error"
